@@ -347,6 +347,9 @@ let step_preds : (string * (vconfig -> fstep -> bool)) list = [
   ("c07_delayed_ok", c07_delayed_ok);
   ("c07_fires_ok", c07_fires_ok);
   ("c07_window_update_ok", c07_window_update_ok);
+  ("c07_reasm_change_ok", c07_reasm_change_ok);
+  ("c07_dist_ok", c07_dist_ok);
+  ("c07_pre_monitor_g", c07_pre_monitor_g);
   ("c18_nagle_ok", c18_nagle_ok);
   ("c18_pre_monitor", c18_pre_monitor);
   ("c17_synack_ok", c17_synack_ok);
@@ -373,6 +376,7 @@ let trace_preds : (string * (vconfig -> fstep list -> bool)) list = [
   ("c06_joint_ok", c06_joint_ok);
   ("c06_rp_exit_ok", c06_rp_exit_ok);
   ("c07_idle_silent_partial", c07_idle_silent_partial);
+  ("c07_trigger_ok", c07_trigger_ok);
   ("c17_fin_seq_ok", c17_fin_seq_ok);
   ("c17_peer_fin_ok", c17_peer_fin_ok);
   ("c17_reset_trace_ok", c17_reset_trace_ok);
